@@ -1,5 +1,5 @@
 (* GENERATED on every run by harness/C16.py translate() with translate/pyexpr2coq_ext.py from
-   /tmp/aud-c16c08/psiaudio/util.py - do not edit.  n = s.shape[-1]; nbins = len(csd); i = np.arange(n) (sample index);
+   /repo/psiaudio/util.py - do not edit.  n = s.shape[-1]; nbins = len(csd); i = np.arange(n) (sample index);
    absr = |tone_conv|; meansq = mean(s**2); sumsq = sum(|x|**2).  Array glue: see translate/c16_spec.py. *)
 From Coq Require Import Reals.
 From PV Require Import Calib.RBase.
@@ -17,10 +17,10 @@ Definition u_dbtopa (db : R) : R :=
 (* psiaudio/util.py:83  patodb *)
 Definition u_patodb (pa : R) : R :=
   (u_db pa (Rdiv 1 50000)).
-(* psiaudio/util.py:367  spectrum_to_band_level *)
+(* psiaudio/util.py:369  spectrum_to_band_level *)
 Definition u_spectrum_to_band_level (spectrum_db n : R) : R :=
   (Rplus spectrum_db (Rmult 10 (log10 n))).
-(* psiaudio/util.py:399  band_to_spectrum_level *)
+(* psiaudio/util.py:401  band_to_spectrum_level *)
 Definition u_band_to_spectrum_level (band_db n : R) : R :=
   (Rminus band_db (Rmult 10 (log10 n))).
 (* psiaudio/util.py:116  csd  value of `scale` *)
@@ -29,18 +29,18 @@ Definition csd_scale (n : R) : R :=
 (* psiaudio/util.py:127  csd_to_signal  value of `scale` *)
 Definition csd_to_signal_scale (nbins : R) : R :=
   (Rdiv (Rdiv 2 (Rmult 2 (Rminus nbins 1))) (sqrt 2)).
-(* psiaudio/util.py:239  tone_conv  under detrend is not None = False, window is not None = False  re part  value of `r` *)
+(* psiaudio/util.py:241  tone_conv  under detrend is not None = False, window is not None = False  re part  value of `r` *)
 Definition tone_conv_re (s i fs frequency : R) : R :=
   (Rmult (Rmult 2 s) (cos (Rmult (Ropp 1) (Rmult (Rmult (Rmult 2 PI) (Rdiv i fs)) frequency)))).
-(* psiaudio/util.py:239  tone_conv  under detrend is not None = False, window is not None = False  im part  value of `r` *)
+(* psiaudio/util.py:241  tone_conv  under detrend is not None = False, window is not None = False  im part  value of `r` *)
 Definition tone_conv_im (s i fs frequency : R) : R :=
   (Rmult (Rmult 2 s) (sin (Rmult (Ropp 1) (Rmult (Rmult (Rmult 2 PI) (Rdiv i fs)) frequency)))).
-(* psiaudio/util.py:253  tone_power_conv *)
+(* psiaudio/util.py:255  tone_power_conv *)
 Definition tone_power_of_abs (absr : R) : R :=
   (Rdiv absr (sqrt 2)).
-(* psiaudio/util.py:421  rms  under detrend = False *)
+(* psiaudio/util.py:423  rms  under detrend = False *)
 Definition rms_of_meansq (meansq : R) : R :=
   (sqrt meansq).
-(* psiaudio/util.py:427  rms_rfft *)
+(* psiaudio/util.py:431  rms_rfft *)
 Definition rms_rfft_of_sumsq (sumsq : R) : R :=
   (sqrt sumsq).
